@@ -10,8 +10,11 @@
                                          the reply returned is the first one received after the request started
       dup_confirm_rejected               confirmation for a decided or inbound channel ⇒ protocol error
       shutdown_closes_all, closed_channel_releases_callers
-      mux_can_block_on_unsolicited       WITNESS: 16 unsolicited messages on an idle channel are absorbed, the 17th
-                                         parks the loop in `default: ch.msg <- msg` for ever (see the note at the end)
+      non_channel_message_is_error, mux_never_blocks
+                                         no packet parks the loop in a blocking send on ch.msg (the former finding
+                                         mux-blocked-by-unsolicited-channel-messages, fixed in /repo 18df6c0)
+      listed_init / listed_localOpen / listed_localGlobal / chanOk_chanReqCore / chanOk_completeChan /
+      listed_completions                 the invariant `Listed` also survives the local calls
 -/
 import XC.Proofs.C36
 set_option maxRecDepth 2000
@@ -196,82 +199,100 @@ theorem chan_reply_fresh (c : Chan) (k : Nat) (stale : List QMsg) (x : QMsg)
 /-- SSH_MSG_SERVICE_ACCEPT with an empty service name: 5 bytes; read as a channel packet it addresses channel 0 -/
 def svc : Bytes := [6, 0, 0, 0, 0]
 
-/-- the peer opens a channel of type "a" (accepted by the application) -/
-def openA : Bytes := [90, 0, 0, 0, 1, 97, 0, 0, 0, 7, 0, 16, 0, 0, 0, 0, 128, 0]
-
-/-- such a packet always takes `default: ch.msg <- msg` on channel 0 -/
-theorem svc_packet (m : Mux) (c : Chan) (h0 : getChan m 0 = some c) :
-    onePacket m svc = some ((pushMsg c .other).1, setChan m 0 (some (pushMsg c .other).2), []) := by
+/-- **non_channel_message_is_error** (repo commit 18df6c0): a message that decode() accepts but that is not a
+    channel message, addressed to a known channel, ends the connection — it is NOT queued on `ch.msg` any more -/
+theorem non_channel_message_is_error (m : Mux) (c : Chan) (h0 : getChan m 0 = some c) :
+    onePacket m svc = some (.err, m, []) := by
   simp [onePacket, svc, rdU32, h0, handleChanPacket, decode, decodeBody, rdStr, done]
 
-/-- feed `n` of them, as long as the mux accepts them -/
-def flood : Nat → Mux → Option Mux
-  | 0, m => some m
-  | n+1, m => match onePacket m svc with
-    | some (.ok, m', _) => flood n m'
-    | _ => none
+/-- **mux_never_blocks** (was: the witness mux_can_block_on_unsolicited, true of the code before 18df6c0): under the
+    invariant `Listed` — listed channels are open, an undecided channel has an empty `msg` queue, the reply gate is
+    open only on decided channels — no packet makes the loop park in a blocking `ch.msg <- msg`.  The only blocking
+    sends left are those of the open confirmation / failure; they are gated by responseMessageReceived (undecided
+    ⇒ queue empty, and the channel becomes decided), so each happens at most once per channel and finds room. -/
+theorem mux_never_blocks {m : Mux} {p : Bytes} {o : Outcome} {m' : Mux} {ev : Evs}
+    (hl : Listed m) (hne : p ≠ []) (h : onePacket m p = some (o, m', ev)) : o ≠ .blocks ∧ Listed m' :=
+  ⟨(mux_total hl hne h).2.1, (mux_total hl hne h).2.2⟩
 
-theorem getChan_setChan_same {m : Mux} {id : Nat} {c c' : Chan} (h : getChan m id = some c) :
-    getChan (setChan m id (some c')) id = some c' := by
-  unfold getChan at h ⊢
-  have hlt : id < m.chans.length := by
-    cases hg : m.chans[id]? with
-    | none => simp [hg] at h
-    | some x => exact (List.getElem?_eq_some_iff.mp hg).1
-  simp [setChan, List.getElem?_set, hlt]
+/-! ### the invariant also survives every local call -/
 
-theorem flood_fills (n : Nat) : ∀ (m : Mux) (c : Chan), getChan m 0 = some c → c.closed = false →
-    c.msgQ.length + n ≤ 16 →
-    ∃ m' c', flood n m = some m' ∧ getChan m' 0 = some c' ∧ c'.closed = false ∧
-      c'.msgQ.length = c.msgQ.length + n ∧ c'.opener = c.opener ∧ c'.requester = c.requester := by
-  induction n with
-  | zero => intro m c h0 hc _; exact ⟨m, c, rfl, h0, hc, rfl, rfl, rfl⟩
-  | succ n ih =>
-    intro m c h0 hc hlen
-    have hpush : pushMsg c .other = (.ok, { c with msgQ := c.msgQ ++ [.other] }) := by
-      unfold pushMsg
-      have : ¬ c.msgQ.length ≥ 16 := by omega
-      simp [hc, this]
-    have hstep := svc_packet m c h0
-    rw [hpush] at hstep
-    simp only [flood, hstep]
-    obtain ⟨m', c', hf, hg, hcl, hl, ho, hr⟩ :=
-      ih (setChan m 0 (some { c with msgQ := c.msgQ ++ [.other] })) { c with msgQ := c.msgQ ++ [.other] }
-        (getChan_setChan_same h0) hc (by simp; omega)
-    exact ⟨m', c', hf, hg, hcl, by simp at hl; omega, ho, hr⟩
+theorem listed_init : Listed Mux.init := by intro c hc; simp [Mux.init] at hc
 
-/-- **mux_can_block_on_unsolicited** (observation O-default-arm, proved on the model of the code as written):
-    after the peer has opened one channel (accepted; nobody waits on its `msg` queue) and sent 16 five-byte
-    SERVICE_ACCEPT packets — all handled without error — a 17th makes `onePacket` never return: the loop goroutine
-    is parked in `ch.msg <- msg`, so no later packet (not even the peer's hang-up) is ever read. -/
-theorem mux_can_block_on_unsolicited :
-    ∃ m0 ev0 m16 mB, onePacket Mux.init openA = some (.ok, m0, ev0) ∧ flood 16 m0 = some m16 ∧
-      onePacket m16 svc = some (.blocks, mB, []) ∧
-      (∃ c, getChan m16 0 = some c ∧ c.opener = none ∧ c.requester = none ∧ c.msgQ.length = 16) := by
-  have hopen : ∃ m0 ev0 c0, onePacket Mux.init openA = some (.ok, m0, ev0) ∧ getChan m0 0 = some c0 ∧
-      c0.closed = false ∧ c0.msgQ = [] ∧ c0.opener = none ∧ c0.requester = none := by
-    simp [onePacket, openA, decode, decodeBody, rdStr, rdU32, rdBool, Mux.init, addChan, newChan, chanSend, setChan,
-      getChan, C35.minPacketLength]
-  obtain ⟨m0, ev0, c0, ho, hg0, hc0, hq0, hop0, hrq0⟩ := hopen
-  obtain ⟨m16, c16, hf, hg, hcl, hl, hop, hrq⟩ := flood_fills 16 m0 c0 hg0 hc0 (by simp [hq0])
-  have hblk : pushMsg c16 .other = (.blocks, c16) := by
-    unfold pushMsg
-    have : c16.msgQ.length ≥ 16 := by rw [hl, hq0]; simp
-    simp [hcl, this]
-  refine ⟨m0, ev0, m16, setChan m16 0 (some c16), ho, hf, ?_, c16, hg, by rw [hop, hop0], by rw [hrq, hrq0],
-    by rw [hl, hq0]; rfl⟩
-  rw [svc_packet m16 c16 hg, hblk]
+theorem listed_localOpen {m : Mux} (hl : Listed m) (k : Nat) : Listed (localOpen m k).1 := by
+  unfold localOpen
+  have hnew : ChanOk { newChan false m.nextUid with opener := some k } := ⟨rfl, fun _ => rfl, by simp [newChan]⟩
+  have hadd := listed_addChan (m := { m with nextUid := m.nextUid + 1 }) hl _ hnew
+  simp only
+  split
+  · exact listed_setChan_some hadd _ _ ⟨rfl, fun _ => rfl, by simp [newChan]⟩
+  · exact hadd
 
+theorem listed_localGlobal {m : Mux} (hl : Listed m) (k : Nat) (w : Bool) : Listed (localGlobal m k w).1 := by
+  unfold localGlobal
+  cases w <;> simp only [Bool.false_eq_true, if_false, if_true] <;> (split <;> first | exact hl | (split <;> exact hl))
 
-/-! ## Does the blocked loop contradict a clause of C36?
-    "never panic", "unknown channel ⇒ error / failure reply", "reply only to a waiting request" and "duplicate
-    confirmation rejected" are untouched by it (mux_total covers the `blocks` outcome: it is not a panic).
-    The last clause — "when the connection ends every channel and request stream is closed" — presupposes that the
-    loop notices the end of the connection. In the state of `mux_can_block_on_unsolicited` it cannot: `shutdown` is
-    only ever applied after `onePacket` RETURNS an error, and `Outcome.blocks` is the outcome in which `onePacket`
-    does not return. The correspondence check confirms the consequence on the real code (trace
-    `…|BLOCKED|STUCK,shut=bad:loop-never-exits`: after the peer's hang-up mux.Wait does not return and channel reads
-    stay blocked), so the clause IS violated on this input; it is registered as known finding
-    mux-blocked-by-unsolicited-channel-messages. -/
+theorem chanOk_chanReqCore {c : Chan} (h : ChanOk c) (k : Nat) (w : Bool) : ChanOk (chanReqCore c k w).1 := by
+  obtain ⟨hcl, hq, hrp⟩ := h
+  unfold chanReqCore
+  cases hd : c.decided
+  · simp; exact ⟨hcl, hq, hrp⟩
+  · cases w <;> cases hs : c.sentClose <;> simp [hd, hs] <;>
+      first
+        | exact ⟨hcl, by simp [hd], by simp [hd]⟩
+        | exact ⟨hcl, fun h => by simp [hd] at h, fun _ => hd⟩
+
+theorem chanOk_completeChan {c : Chan} (h : ChanOk c) : ChanOk (completeChan c).1 := by
+  obtain ⟨hcl, hq, hrp⟩ := h
+  unfold completeChan
+  cases ho : c.opener with
+  | some k =>
+    cases hm : c.msgQ with
+    | nil => simp only; split <;> exact ⟨hcl, by simpa [hm] using hq, hrp⟩
+    | cons x q =>
+      have hdec : c.decided = true := by
+        cases hd : c.decided with
+        | true => rfl
+        | false => have := hq hd; rw [hm] at this; cases this
+      cases x <;> exact ⟨hcl, fun h => by simp [hdec] at h, fun _ => hdec⟩
+  | none =>
+    cases hr : c.requester with
+    | none => exact ⟨hcl, hq, hrp⟩
+    | some k =>
+      cases hm : c.msgQ with
+      | nil => simp only; split
+               · exact ⟨hcl, by simpa [hm] using hq, by simp⟩
+               · exact ⟨hcl, by simpa [hm] using hq, hrp⟩
+      | cons x q =>
+        have hdec : c.decided = true := by
+          cases hd : c.decided with
+          | true => rfl
+          | false => have := hq hd; rw [hm] at this; cases this
+        cases x <;> exact ⟨hcl, fun h => by simp [hdec] at h, by simp⟩
+
+theorem listed_completions {m : Mux} (hl : Listed m) : Listed (completions m).1 := by
+  unfold completions
+  intro c hc
+  simp only at hc
+  have hmem : ∀ (m0 : Mux), m0.chans = m.chans →
+      some c ∈ m0.chans.map (Option.map (fun c => (completeChan c).1)) → ChanOk c := by
+    intro m0 hm0 hin
+    rw [hm0] at hin
+    obtain ⟨oc, hoc, heq⟩ := List.mem_map.mp hin
+    cases oc with
+    | none => simp at heq
+    | some c0 =>
+      simp at heq; subst heq
+      exact chanOk_completeChan (hl c0 hoc)
+  split at hc <;> first
+    | exact hmem _ rfl hc
+    | (split at hc <;> exact hmem _ rfl hc)
+
+/-! ## The former blocked-loop finding
+    Before repo commit 18df6c0 the `default:` arm of channel.handlePacket queued every decoded non-channel message
+    with a blocking `ch.msg <- msg`; the 17th on an idle channel parked the loop for ever (witness theorem
+    `mux_can_block_on_unsolicited`, reproduced on the real code: after the peer's hang-up mux.Wait did not return and
+    channel reads stayed blocked — a violation of the clause "when the connection ends every channel and request
+    stream is closed"). The arm is now an error; `mux_never_blocks` is the positive statement and the `cls=flood`
+    ops are kept as regression cases (the first flood packet must end the connection with everything closed). -/
 
 end XC.C36
